@@ -58,7 +58,8 @@ def to_model(doc):
 
     def rec(n):
         if n['t'] == 'map':
-            n['items'] = [[k, rec(c)] for k, c in n['items']]
+            # (a string which restates the current target name of a function node has no effect: the model never sees it)
+            n['items'] = [[k, rec(c)] for k, c in n['items'] if not c.get('same_target_name')]
         elif n['t'] == 'seq':
             n['items'] = [rec(c) for c in n['items']]
         elif n['t'] == 'sp' and n['kind'] in ('call', 'bind'):
@@ -115,6 +116,7 @@ def gen_case(rng, tier):
             req_paths.append(p)
     # placeholders among call/bind arguments; every tree also holds a recorder that must not run before the check
     base['items'].append(['rec0', SP('call', func='verif_targets.canary', args=M([['x', S(1)]]))])
+    fn_name = None
     if rng.random() < 0.5:
         r = rng.random()
         if r < 0.35:
@@ -128,6 +130,7 @@ def gen_case(rng, tier):
             args, rp = M([['x', S(1)], ['inner', SP('bind', func='verif_targets.inner', args=M([['deep', L([SP('required')])]]))]]), [('fn', 'inner', 'deep', 0)]
         base['items'].append(['fn', SP(rng.choice(['call', 'bind']), func='verif_targets.withreq', args=args)])
         req_paths.extend(rp)
+        fn_name = 'verif_targets.withreq'
     if rng.random() < 0.3:
         base = gen.place_flags(rng, base, p=0.15, vocab=('prio', 'del', 'md'), on_seq_elems=False)
     rl_n, rl_req = 0, []
@@ -178,6 +181,12 @@ def gen_case(rng, tier):
                 # (a string merged onto a function node renames its target and an emptied function node is kept by type promotion: that table belongs to C13, not to this model)
                 c16.put(d, par, rng.choice([SP('clear')] + ([M([], **{'del': True}), S(mk.next(rng))] if par[0] != 'fn' else [])))
                 touched = True
+        if rng.random() < 0.25 and fn_name and not any(k == 'fn' for k, _ in d['items']):
+            # the current target of the function node, restated as a plain string: documented to change nothing - its placeholders stay
+            same = S(fn_name, style=rng.choice(['plain', 'dq']))
+            same['same_target_name'] = True
+            d['items'].append(['fn', same])
+            touched = True
         if rng.random() < 0.15 and req_paths:
             src = gen.path_str(rng.choice(req_paths))
             if src:
